@@ -12,6 +12,7 @@ type GenOpts struct {
 	Kinds        []TKind
 	WrapPct      int  // chance that argument expressions are wrapped in rt.A
 	ShadowPct    int  // chance that Params come from variables named like generated identifiers
+	PairPct      int  // chance that a program is printed into the file of its predecessor (two directives per file)
 	LineDirPct   int  // chance that //line comments with decreasing line numbers sit between the directive's arguments
 	ImportPct    int  // chance that some functions of a flow come from a helper package, with value types from packages the file imports / does not import
 	Wide         int  // also generate this many wide programs (GenWide)
@@ -33,6 +34,7 @@ func DefaultOpts() GenOpts {
 		BarePct:    12,
 		ImportPct:  20,
 		LineDirPct: 10,
+		PairPct:    15,
 		GenericPct: 15,
 		MaxColl:    3,
 		EndPct:     40,
